@@ -25,7 +25,7 @@ PROPS["C02"] = {
              "active / idle / paused-application-reader / paused-target-reader / closing in mid-transfer (either side) / asking for a channel the server refuses, payloads, write partitions, socket-buffer bounds, delivery "
              "chunking and (1 run in 8) a write-completion stall on the client's physical link while a stream is being opened; "
              "non-trivial = all non-paused connections completed while the others were still open (>= 2 open at once); distinct = schedule shapes"),
-    "probes": ["concurrent_worlds_completed", "runs_with_a_crowd_of_connections", "connections_opened_together", "lingering_runs", "heavy_paused_reader", "fault_write_stall_armed", "fault_segmentation", "hanging_connects_among_live_connections"],
+    "probes": ["concurrent_worlds_completed", "runs_with_a_crowd_of_connections", "connections_opened_together", "lingering_runs", "heavy_paused_reader", "fault_write_stall_armed", "fault_segmentation", "hanging_connects_among_live_connections", "failed_connections_before_the_others"],
     "technique": "deterministic simulation: seeded search over interleavings of k concurrent logical connections, per-connection PRF attribution, bounded-progress oracle",
     "level_text": ("Seeded exploration of interleavings: the driver decides the order of opens, writes, pauses and every delivery across k connections sharing "
                    "one session; isolation is decided by per-connection PRF streams (a foreign byte is attributed to its owner), independence by "
